@@ -275,10 +275,16 @@ func swapCase(s string) string {
 }
 
 func genC08Case(t *rapid.T) SSOCase {
-	spec := genSSOWorld(t, worldOpts{bindings: []string{world.BindPost, world.BindRedirect, world.BindPost, world.BindRedirect, world.BindArtifact, world.BindPAOS, world.BindOther, " " + world.BindPost, world.BindRedirect + "\n", "\t" + world.BindPost + " "}, minACS: 0, maxACS: 4, signingFlags: true, issuerModes: []string{"static", "host"}, customSSO: true})
+	spec := genSSOWorld(t, worldOpts{bindings: []string{world.BindPost, world.BindRedirect, world.BindPost, world.BindRedirect, world.BindArtifact, world.BindPAOS, world.BindOther, " " + world.BindPost, world.BindRedirect + "\n", "\t" + world.BindPost + " "}, minACS: 0, maxACS: 4, signingFlags: true, issuerModes: []string{"static", "host"}, customSSO: true, oddLocations: true})
 	c := SSOCase{Spec: spec, Host: rapid.SampledFrom(reqHosts).Draw(t, "host")}
+	if rapid.IntRange(0, 9).Draw(t, "nohost") == 0 {
+		c.Host = obs.NoHost // an HTTP/1.0 request without Host header: whatever the issuer then is, the request has one outcome
+	}
 	c.SP = rapid.IntRange(0, len(spec.SPs)-1).Draw(t, "sp")
 	c.Req = genValidAuthn(t, spec, c.SP, c.Host)
+	if c.Host == obs.NoHost {
+		c.Req.Destination = A
+	}
 	maybePassive(t, &c.Req)
 	c.Req.ProtocolBinding = rapid.SampledFrom([]string{A, A, world.BindPost, world.BindRedirect, world.BindArtifact, world.BindPAOS, world.BindOther, "urn:example:unlisted"}).Draw(t, "protocolbinding")
 	c.Style = genXMLStyle(t)
